@@ -106,11 +106,17 @@ func runC11(r *vfw.Run) {
 	nodes := lr.nodes
 	P := nodes[0]
 	snapshots := 0
+	var manifests []*snapshot.Manifest
 	lr.loop("", nil, func(rr *scen.RoundResult) {
 		if rr.Flags.HasFlag(types.Snapshot) {
 			for _, n := range nodes {
 				n.Do(func() { n.SM.VerifCreateSnapshot(rr.Height) })
 			}
+			P.Do(func() {
+				if m := P.Chain.ReadSnapshotManifest(); m != nil && (len(manifests) == 0 || manifests[len(manifests)-1].Height != m.Height) {
+					manifests = append(manifests, m)
+				}
+			})
 			snapshots++
 			r.Probe("snapshot_published")
 		}
@@ -138,7 +144,13 @@ func runC11(r *vfw.Run) {
 	P.Do(func() { manifest = P.Chain.ReadSnapshotManifest() })
 	attempted := false
 	if manifest != nil && manifest.Height > 2 && manifest.Height <= P.Chain.Head.Height() {
-		attempted = c11Join(r, lr, P, manifest)
+		var older *snapshot.Manifest
+		for _, m := range manifests {
+			if m.Height < manifest.Height {
+				older = m
+			}
+		}
+		attempted = c11Join(r, lr, P, manifest, older)
 	} else {
 		r.Probe("no_snapshot_manifest_in_run")
 	}
@@ -146,7 +158,7 @@ func runC11(r *vfw.Run) {
 	lr.sample(map[string]interface{}{"non_empty_diffs_replayed": totalNonEmpty, "snapshots_published": snapshots, "joiner_attempted_import": attempted})
 }
 
-func c11Join(r *vfw.Run, lr *ledgerRun, P *simnode.Node, manifest *snapshot.Manifest) bool {
+func c11Join(r *vfw.Run, lr *ledgerRun, P *simnode.Node, manifest *snapshot.Manifest, older *snapshot.Manifest) bool {
 	s := lr.s
 	joinerKey := scen.NewIdent("joiner", 1)
 	J := simnode.New(s.W, 50, joinerKey.Key, s.Cfg, simdisk.New(), s.Net.NewStore(), r.Dir)
@@ -161,7 +173,7 @@ func c11Join(r *vfw.Run, lr *ledgerRun, P *simnode.Node, manifest *snapshot.Mani
 	// Byzantine provider
 	byz := ""
 	cidV2, _ := cid.Cast(manifest.CidV2)
-	kind := r.Choose("c11.byz", 12)
+	kind := r.Choose("c11.byz", 14)
 	arg := r.Choose("c11.byzarg", 1<<16)
 	s.Net.Mutate = func(to *simipfs.Store, c cid.Cid, data []byte) []byte {
 		if to != J.Ipfs || c != cidV2 || len(data) == 0 {
@@ -195,7 +207,15 @@ func c11Join(r *vfw.Run, lr *ledgerRun, P *simnode.Node, manifest *snapshot.Mani
 	defer func() { s.Net.Mutate = nil }()
 	diffTamper := kind == 10
 	certDrop := kind == 11
-	fs := protocol.VerifNewFastSync(J.Chain, J.Ipfs, J.App, manifest, J.SM, J.Bus, J.Addr, J.KeyStore, J.SubMgr, J.Upg)
+	diffDrop := kind == 12
+	offered := manifest
+	if kind == 13 && older != nil {
+		// the manifest is a gossip message: height of the newest snapshot, root and archive of an older one (a complete,
+		// well-formed archive of ANOTHER state)
+		offered = &snapshot.Manifest{Height: manifest.Height, Root: older.Root, CidV2: older.CidV2}
+		byz = "manifest-with-root-and-archive-of-an-older-snapshot"
+	}
+	fs := protocol.VerifNewFastSync(J.Chain, J.Ipfs, J.App, offered, J.SM, J.Bus, J.Addr, J.KeyStore, J.SubMgr, J.Upg)
 	before := fmt.Sprintf("head=%x root=%x idroot=%x", J.Chain.Head.Hash().Bytes()[:8], J.App.State.Root().Bytes()[:8], J.App.IdentityState.Root().Bytes()[:8])
 	var from uint64
 	var err error
@@ -228,6 +248,10 @@ func c11Join(r *vfw.Run, lr *ledgerRun, P *simnode.Node, manifest *snapshot.Mani
 					d.Values = vals
 					wire[i].IdentityDiff = &d
 					byz = "served-diff-altered"
+				}
+				if diffDrop && wire[i].Header.Flags().HasFlag(types.IdentityUpdate) && wire[i].IdentityDiff != nil && len(wire[i].IdentityDiff.Values) > 0 && byz == "" {
+					wire[i].IdentityDiff = nil
+					byz = "diff-of-identity-update-block-withheld"
 				}
 				if certDrop && wire[i].Header.Flags().HasFlag(types.IdentityUpdate) && byz == "" {
 					wire[i].Cert = nil
